@@ -456,7 +456,8 @@ def rule_bounds_are_legal(ctx):
         fi = prog.cls("stix2.properties::" + cid).methods.get("clean")
         if fi is None:
             raise AnalysisError("anchor missing: %s.clean" % cid)
-        extra = sorted(range_guard_table(fi) - legal)
+        # (non-finite floats are not JSON numbers: refusing them refuses nothing valid)
+        extra = sorted(range_guard_table(fi) - legal - ({("non-finite", "refused", "unconditional")} if cid == "FloatProperty" else set()))
         run.check(not extra, R, key(fi.module.relpath, fi.qualname, "bounds-are-legal-values"),
                   "a range guard refuses more than the values strictly outside [min, max]: the bound itself (confidence 100, port "
                   "65535, number_observed 999999999) or other legal values are refused", file=fi.module.relpath, line=fi.node.lineno,
